@@ -107,12 +107,54 @@ func (p *Program) GlobalConst(g *ssa.Global) (string, bool) {
 				}
 			}
 		}
-		constOf := func(v ssa.Value) (string, bool) {
+		var constOf func(v ssa.Value) (string, bool)
+		constOf = func(v ssa.Value) (string, bool) {
 			if c, ok := v.(*ssa.Const); ok {
 				if c.Value == nil {
 					return "zero", true
 				}
 				return c.Value.ExactString(), true
+			}
+			// a slice literal of constants: {a,b}
+			if sl, ok := v.(*ssa.Slice); ok && sl.Low == nil && sl.High == nil {
+				al, isAl := sl.X.(*ssa.Alloc)
+				if !isAl || al.Referrers() == nil {
+					return "", false
+				}
+				arr, isArr := al.Type().(*types.Pointer).Elem().Underlying().(*types.Array)
+				if !isArr || arr.Len() > 32 {
+					return "", false
+				}
+				elems := make([]string, arr.Len())
+				for _, ref := range *al.Referrers() {
+					switch y := ref.(type) {
+					case *ssa.IndexAddr:
+						idx, isC := ConstInt(y.Index)
+						if !isC || idx < 0 || idx >= arr.Len() || y.Referrers() == nil {
+							return "", false
+						}
+						for _, r2 := range *y.Referrers() {
+							st, isSt := r2.(*ssa.Store)
+							if !isSt || st.Addr != ssa.Value(y) {
+								return "", false
+							}
+							e, isC := constOf(st.Val)
+							if !isC {
+								return "", false
+							}
+							elems[idx] = e
+						}
+					case *ssa.Slice, *ssa.DebugRef:
+					default:
+						return "", false
+					}
+				}
+				for _, e := range elems {
+					if e == "" {
+						return "", false
+					}
+				}
+				return "{" + strings.Join(elems, ",") + "}", true
 			}
 			return "", false
 		}
